@@ -139,6 +139,16 @@ CHECKS = {
          "mismatch policy.",
     note="Assumed: A8 np.isreal is True on reals (complex numbers outside the value model); least-squares residual = distance to span and LinearComparer fit errors are numerical linear algebra (assumed, bounded-checked only).",
     design="6/C16"),
+ 'C09': dict(
+    technique="contract-based deductive verification (pyvc) of the response path and two validators, with raw_check/post_eval_validation as abstract callees; bounded cheating-formula grid as stand-in for scope handling inside gen_evaluations and the parser",
+    text="Proved for every grader configuration and input: MathMixin.check_math_response returns a verdict of True or 'partial' -- hence any positive credit -- only after post_eval_validation has run on "
+         "this very input and its used functions without objecting (the seeded change that validated only full-credit answers is refuted and replayed); validate_required_functions_used returns True "
+         "iff every required function is among the used ones, else InvalidInput; validate_forbidden_strings_not_used (list form) raises InvalidInput with the author's message iff some forbidden string, "
+         "compared with spaces removed on both sides, occurs in some expression; construct_suffixes never writes the shared default suffix table (metric suffixes cannot leak between graders). "
+         "NOT proved: get_permitted_functions / validate_only_permitted_functions_used (Python set algebra and sorted() outside the subset), gen_evaluations' deletion of instructor and sibling "
+         "variables before the student evaluation, check_scope -- bounded: neutral-term cheating formulas for every restriction at full and partial credit.",
+    note="Assumed: A9/C10 the reported function-usage sets are exact; raw_check's verdict/credit relation (consolidate_results contract); str.replace uninterpreted but applied identically on both sides (A6).",
+    design="6/C09"),
 }
 
 NOT_YET = {}
